@@ -1,4 +1,4 @@
-import KdVerif.Props.C10
+import KdVerif.Proofs.IRDecoders
 import KdVerif.Spec.DarwinHost
 /-
   C18 — output is a function of the dump, not of the host operating system.
@@ -12,7 +12,7 @@ import KdVerif.Spec.DarwinHost
   real code by the check.
 -/
 namespace KdVerif.C18
-open KdVerif.IR KdVerif.C09
+open KdVerif.IR KdVerif.DecoderFacts
 
 /-- Everything except the host. -/
 def noHostSel : Sel :=
